@@ -208,6 +208,7 @@ matrix *Matrix_NewFromPyBuffer(PyObject *obj, int id, int *ndim)
   }
 
   if (view->ndim != 1 && view->ndim != 2) {
+    PyBuffer_Release(view);
     free(view);
     PY_ERR_TYPE("imported array must have 1 or 2 dimensions");
   }
